@@ -791,6 +791,12 @@ func (c *c14Case) checkStep(t *rapid.T, reqs []*c14Req, resps []c14Resp, h0, u0 
 		}
 	}
 
+	for i := range reqs {
+		if resps[i].code == c14Panic {
+			c.fail(t, reqs, resps, "request %d: %s", i, resps[i].body)
+		}
+	}
+
 	// ---- 1. safety from the lock-store history ----
 	type wkey struct {
 		text string
